@@ -119,3 +119,51 @@ func c14CounterFacts(fc *facts) {
 	}
 	fc.set("savepointIdsCounted", v, true, "")
 }
+
+// savepointJobFromBytes  1: CreateSavepointArtifact receives the job checkpoint's CONTENT (a []byte parameter) and
+//                           passes it to a `.Write(...)` call: job.savepoint is written from memory (proposed D65 repair);
+//                        0: it copies the job checkpoint FILE last (which the next publication's cleanup may have removed).
+// Observed by the C14 correspondence either way (held creation + release of the next publication, then `resume`).
+func init() { extraFactFns = append(extraFactFns, c14JobFacts) }
+
+func c14JobFacts(fc *facts) {
+	f := parseFile("storage/snapshots/savepoint_artifact.go")
+	fn := findFunc(f, "", "CreateSavepointArtifact")
+	if fn == nil || fn.Body == nil || fn.Type.Params == nil {
+		problemFor([]string{"savepointJobFromBytes"}, "snapshots.CreateSavepointArtifact not found")
+		return
+	}
+	byteParams := map[string]bool{}
+	for _, p := range fn.Type.Params.List {
+		if at, ok := p.Type.(*ast.ArrayType); ok && at.Len == nil {
+			if id, ok := at.Elt.(*ast.Ident); ok && id.Name == "byte" {
+				for _, n := range p.Names {
+					byteParams[n.Name] = true
+				}
+			}
+		}
+	}
+	written := false
+	ast.Inspect(fn.Body, func(x ast.Node) bool {
+		call, ok := x.(*ast.CallExpr)
+		if !ok {
+			return true
+		}
+		if sel, ok := call.Fun.(*ast.SelectorExpr); ok && sel.Sel.Name == "Write" {
+			for _, a := range call.Args {
+				ast.Inspect(a, func(y ast.Node) bool {
+					if id, ok := y.(*ast.Ident); ok && byteParams[id.Name] {
+						written = true
+					}
+					return true
+				})
+			}
+		}
+		return true
+	})
+	v := uint64(0)
+	if written {
+		v = 1
+	}
+	fc.set("savepointJobFromBytes", v, true, "")
+}
